@@ -3,3 +3,4 @@
 pub mod scc;
 pub mod trav;
 pub mod paths;
+pub mod opt;
